@@ -150,8 +150,7 @@ def main(argv):
                 except ValueError:
                     name = f"SIG{sig}"
                 # the whole case is one failure observation per variant
-                nvar = len(L.expected(fam, inp, exp)) if (exp is not None or fam == "cdelta") else 1
-                obs = [["f"]] * nvar
+                obs = [["f"]] * L.n_variants(fam, exp)
                 if exp is not None or fam == "cdelta":
                     ref = L.expected(fam, inp, exp)
                     flag = ("=" if L.all_allowed(fam, exp, obs, ref) else "!") + ("n" if L.nontrivial(obs, ref) else "t")
